@@ -771,4 +771,322 @@ theorem validateMappings_eq (m : Jwt.Val) :
     funext wm; simp [V2.T_WeightedMapping.ofVal]
   simp [Function.comp_def, this, h2]
 
+/-! ## C06: overlapping exports (row EL1) — `isContainedIn(kind, subjects, vr)` and `Exports.Validate` -/
+
+/-- keys of a Go map -/
+def keysM (m : GoMap Str Str) : List Str := (mapEntries m).map (·.1)
+
+theorem mapGet_isSome (l : List (Str × Str)) (k : Str) : (mapGet (some l) k).isSome = decide (k ∈ l.map (·.1)) := by
+  induction l with
+  | nil => simp [mapGet, mapLookup]
+  | cons p r ih =>
+    obtain ⟨a, b⟩ := p
+    simp only [mapGet] at ih
+    by_cases h : a = k
+    · simp [mapGet, mapLookup, h]
+    · have h' : ¬ k = a := fun e => h e.symm
+      simp [mapGet, mapLookup, h, h', ih]
+
+/-- one step of the inner loop on an allocated map with distinct keys -/
+theorem contained_step (i j : Int) (ns s : Str) (l : List (Str × Str)) (hnd : (l.map (·.1)).Nodup) :
+    ∃ l', V2.isContainedIn.loop2 i ns j s (some l) = some (.next (some l')) ∧ (l'.map (·.1)).Nodup ∧
+      ∀ k, k ∈ l'.map (·.1) ↔ k ∈ l.map (·.1) ∨ (k = s ∧ i ≠ j ∧ Jwt.isContainedIn ns s = true) := by
+  by_cases hij : i = j
+  · exact ⟨l, by simp [V2.isContainedIn.loop2, hij], hnd, by simp [hij]⟩
+  · have hij' : (i == j) = false := by simpa using hij
+    by_cases hc : Jwt.isContainedIn ns s = true
+    · by_cases hk : s ∈ l.map (·.1)
+      · refine ⟨l, ?_, hnd, ?_⟩
+        · simp [V2.isContainedIn.loop2, hij', v2_isContainedIn, hc, mapGet_isSome, hk]
+        · intro k; constructor
+          · intro h; exact Or.inl h
+          · rintro (h | ⟨rfl, _, _⟩)
+            · exact h
+            · exact hk
+      · refine ⟨(s, ns) :: l.filter (fun p => p.1 ≠ s), ?_, ?_, ?_⟩
+        · simp [V2.isContainedIn.loop2, hij', v2_isContainedIn, hc, mapGet_isSome, hk, mapSet]
+        · have hf : l.filter (fun p => decide (p.1 ≠ s)) = l := by
+            apply List.filter_eq_self.mpr
+            intro p hp
+            have : p.1 ≠ s := fun e => hk (List.mem_map.mpr ⟨p, hp, e⟩)
+            simpa using this
+          rw [hf]
+          simp only [List.map_cons, List.nodup_cons]
+          exact ⟨hk, hnd⟩
+        · have hf : l.filter (fun p => decide (p.1 ≠ s)) = l := by
+            apply List.filter_eq_self.mpr
+            intro p hp
+            have : p.1 ≠ s := fun e => hk (List.mem_map.mpr ⟨p, hp, e⟩)
+            simpa using this
+          rw [hf]
+          intro k
+          simp only [List.map_cons, List.mem_cons]
+          constructor
+          · rintro (rfl | h)
+            · exact Or.inr ⟨rfl, hij, hc⟩
+            · exact Or.inl h
+          · rintro (h | ⟨rfl, _, _⟩)
+            · exact Or.inr h
+            · exact Or.inl rfl
+    · refine ⟨l, ?_, hnd, ?_⟩
+      · have hc' : Jwt.isContainedIn ns s = false := by simpa using hc
+        simp [V2.isContainedIn.loop2, hij', v2_isContainedIn, hc']
+      · intro k; constructor
+        · intro h; exact Or.inl h
+        · rintro (h | ⟨_, _, h⟩)
+          · exact h
+          · exact absurd h hc
+
+/-- the inner loop: for a fixed `(i, ns)`, every later `s_j` (j ≠ i) that contains `ns` becomes a key -/
+theorem contained_inner (i : Int) (ns : Str) : ∀ (ss : List Str) (j0 : Nat) (l : List (Str × Str)),
+    (l.map (·.1)).Nodup →
+    ∃ l', forRangeFrom (V2.isContainedIn.loop2 i ns) (j0 : Int) ss (some l) = some (.done (some l')) ∧
+      (l'.map (·.1)).Nodup ∧
+      ∀ k, k ∈ l'.map (·.1) ↔ k ∈ l.map (·.1) ∨
+        ∃ t, t < ss.length ∧ ss[t]? = some k ∧ i ≠ ((j0 + t : Nat) : Int) ∧ Jwt.isContainedIn ns k = true := by
+  intro ss
+  induction ss with
+  | nil => intro j0 l hnd; exact ⟨l, by simp [forRangeFrom], hnd, by simp⟩
+  | cons s ss ih =>
+    intro j0 l hnd
+    obtain ⟨l1, h1, hnd1, hm1⟩ := contained_step i (j0 : Int) ns s l hnd
+    obtain ⟨l2, h2, hnd2, hm2⟩ := ih (j0 + 1) l1 hnd1
+    refine ⟨l2, ?_, hnd2, ?_⟩
+    · simp only [forRangeFrom, h1]
+      have : ((j0 : Int) + 1) = ((j0 + 1 : Nat) : Int) := by simp
+      rw [this]; exact h2
+    · intro k
+      rw [hm2, hm1]
+      constructor
+      · rintro ((h | ⟨rfl, hne, hc⟩) | ⟨t, ht, hs, hne, hc⟩)
+        · exact Or.inl h
+        · exact Or.inr ⟨0, by simp, by simp, by simpa using hne, hc⟩
+        · refine Or.inr ⟨t + 1, by simp; omega, by simpa using hs, ?_, hc⟩
+          have : j0 + 1 + t = j0 + (t + 1) := by omega
+          rw [← this]; exact hne
+      · rintro (h | ⟨t, ht, hs, hne, hc⟩)
+        · exact Or.inl (Or.inl h)
+        · cases t with
+          | zero =>
+            simp at hs
+            subst hs
+            exact Or.inl (Or.inr ⟨rfl, by simpa using hne, hc⟩)
+          | succ t =>
+            refine Or.inr ⟨t, by simp at ht; omega, by simpa using hs, ?_, hc⟩
+            have : j0 + 1 + t = j0 + (t + 1) := by omega
+            rw [this]; exact hne
+
+/-- the outer loop: afterwards the keys are exactly the subjects that contain the subject of another position -/
+theorem contained_outer (subjects : List Str) : ∀ (ns' : List Str) (i0 : Nat) (l : List (Str × Str)),
+    (l.map (·.1)).Nodup →
+    ∃ l', forRangeFrom (V2.isContainedIn.loop1 subjects) (i0 : Int) ns' (some l) = some (.done (some l')) ∧
+      (l'.map (·.1)).Nodup ∧
+      ∀ k, k ∈ l'.map (·.1) ↔ k ∈ l.map (·.1) ∨
+        ∃ u t, u < ns'.length ∧ t < subjects.length ∧ subjects[t]? = some k ∧ (i0 + u : Nat) ≠ t ∧
+          ∃ ns, ns'[u]? = some ns ∧ Jwt.isContainedIn ns k = true := by
+  intro ns'
+  induction ns' with
+  | nil => intro i0 l hnd; exact ⟨l, by simp [forRangeFrom], hnd, by simp⟩
+  | cons ns rest ih =>
+    intro i0 l hnd
+    obtain ⟨l1, h1, hnd1, hm1⟩ := contained_inner (i0 : Int) ns subjects 0 l hnd
+    obtain ⟨l2, h2, hnd2, hm2⟩ := ih (i0 + 1) l1 hnd1
+    refine ⟨l2, ?_, hnd2, ?_⟩
+    · simp only [forRangeFrom, V2.isContainedIn.loop1, forRange]
+      simp only [Int.natCast_zero] at h1
+      simp only [h1, Option.bind_eq_bind, Option.bind_some, pure]
+      have : ((i0 : Int) + 1) = ((i0 + 1 : Nat) : Int) := by simp
+      rw [this]; exact h2
+    · intro k
+      rw [hm2, hm1]
+      constructor
+      · rintro ((h | ⟨t, ht, hs, hne, hc⟩) | ⟨u, t, hu, ht, hs, hne, ns2, hn2, hc⟩)
+        · exact Or.inl h
+        · refine Or.inr ⟨0, t, by simp, ht, hs, ?_, ns, by simp, hc⟩
+          intro e; apply hne
+          have : i0 = t := by omega
+          simp [this]
+        · refine Or.inr ⟨u + 1, t, by simp; omega, ht, hs, ?_, ns2, by simpa using hn2, hc⟩
+          omega
+      · rintro (h | ⟨u, t, hu, ht, hs, hne, ns2, hn2, hc⟩)
+        · exact Or.inl (Or.inl h)
+        · cases u with
+          | zero =>
+            simp at hn2; subst hn2
+            refine Or.inl (Or.inr ⟨t, ht, hs, ?_, hc⟩)
+            simp only [Nat.zero_add]
+            intro e; apply hne
+            have : (i0 : Int) = (t : Int) := e
+            omega
+          | succ u =>
+            refine Or.inr ⟨u, t, by simp at hu; omega, ht, hs, by omega, ns2, by simpa using hn2, hc⟩
+
+theorem nodup_eraseDups : ∀ (n : Nat) (l : List Str), l.length ≤ n → l.eraseDups.Nodup := by
+  intro n
+  induction n with
+  | zero => intro l h; have : l = [] := by simpa using h
+            subst this; simp
+  | succ n ih =>
+    intro l h
+    cases l with
+    | nil => simp
+    | cons a as =>
+      rw [List.eraseDups_cons]
+      refine List.nodup_cons.mpr ⟨?_, ih _ ?_⟩
+      · intro hm
+        have := List.mem_eraseDups.mp hm
+        simp at this
+      · have := List.length_filter_le (fun b => !b == a) as
+        simp at h; omega
+
+theorem mem_zip_range (l : List Str) (j : Nat) (s : Str) :
+    (j, s) ∈ (List.range l.length).zip l ↔ l[j]? = some s := by
+  rw [List.mem_iff_getElem?]
+  constructor
+  · rintro ⟨i, hi⟩
+    rw [List.getElem?_zip_eq_some] at hi
+    obtain ⟨h1, h2⟩ := hi
+    obtain ⟨hlt, he⟩ := List.getElem?_eq_some_iff.mp h1
+    simp at he
+    subst he
+    exact h2
+  · intro h
+    refine ⟨j, ?_⟩
+    rw [List.getElem?_zip_eq_some]
+    have hj : j < l.length := by
+      by_cases hlt : j < l.length
+      · exact hlt
+      · simp [List.getElem?_eq_none (by omega : l.length ≤ j)] at h
+    exact ⟨by simp [List.getElem?_range, hj], h⟩
+
+theorem mem_containedSomewhere (subjects : List Str) (k : Str) :
+    k ∈ containedSomewhere subjects ↔
+      ∃ u t, u < subjects.length ∧ t < subjects.length ∧ subjects[t]? = some k ∧ u ≠ t ∧
+        ∃ ns, subjects[u]? = some ns ∧ Jwt.isContainedIn ns k = true := by
+  unfold containedSomewhere
+  simp only [List.mem_eraseDups, List.mem_filterMap, Prod.exists]
+  constructor
+  · rintro ⟨t, s, hmem, hf⟩
+    split at hf
+    · rename_i hany
+      simp at hf; subst hf
+      rw [List.any_eq_true] at hany
+      obtain ⟨⟨u, ns⟩, hu, hcond⟩ := hany
+      simp only [Bool.and_eq_true, bne_iff_ne, ne_eq] at hcond
+      have h1 := (mem_zip_range subjects t s).mp hmem
+      have h2 := (mem_zip_range subjects u ns).mp hu
+      have ht : t < subjects.length := by
+        by_cases hlt : t < subjects.length
+        · exact hlt
+        · simp [List.getElem?_eq_none (by omega : subjects.length ≤ t)] at h1
+      have hu' : u < subjects.length := by
+        by_cases hlt : u < subjects.length
+        · exact hlt
+        · simp [List.getElem?_eq_none (by omega : subjects.length ≤ u)] at h2
+      exact ⟨u, t, hu', ht, h1, hcond.1, ns, h2, hcond.2⟩
+    · simp at hf
+  · rintro ⟨u, t, hu, ht, hs, hne, ns, hns, hc⟩
+    refine ⟨t, k, (mem_zip_range subjects t k).mpr hs, ?_⟩
+    have : ((List.range subjects.length).zip subjects).any (fun x => x.1 != t && Jwt.isContainedIn x.2 k) = true := by
+      rw [List.any_eq_true]
+      exact ⟨(u, ns), (mem_zip_range subjects u ns).mpr hns, by simp [hne, hc]⟩
+    simp [this]
+
+/-- `isContainedIn(kind, subjects, vr)`: one blocking issue per distinct subject that contains the subject of another
+position — exactly the model's `containedSomewhere` -/
+theorem v2_isContainedInList (kind : Int) (subjects : List Str) (vr : V2.T_ValidationResults) :
+    V2.isContainedIn kind subjects vr = some (push vr ((containedSomewhere subjects).flatMap fun _ => errI)) := by
+  obtain ⟨l', hl, hnd, hmem⟩ := contained_outer subjects subjects 0 [] (by simp)
+  have hlen : l'.length = (containedSomewhere subjects).length := by
+    have hnd2 : (containedSomewhere subjects).Nodup := by
+      unfold containedSomewhere; exact nodup_eraseDups _ _ (Nat.le_refl _)
+    have hp : (l'.map (·.1)).Perm (containedSomewhere subjects) := by
+      apply (List.perm_ext_iff_of_nodup hnd hnd2).mpr
+      intro k
+      rw [hmem, mem_containedSomewhere]
+      simp only [List.map_nil, List.not_mem_nil, false_or, Nat.zero_add]
+    simpa using hp.length_eq
+  have hb : ∀ (i : Int) (p : Str × Str) (w : V2.T_ValidationResults),
+      V2.isContainedIn.loop3 kind i p w = some (.next (push w errI)) := by
+    intro i p w
+    simp [V2.isContainedIn.loop3, V2.ValidationResults_Add, push, errI, toGenIssue]
+    rfl
+  have hf : ∀ (xs : List (Str × Str)) (w : V2.T_ValidationResults),
+      xs.foldl (fun st _ => push st errI) w = push w (xs.flatMap fun _ => errI) := by
+    intro xs
+    induction xs with
+    | nil => intro w; simp
+    | cons x xs ih => intro w; simp [ih, push_push]
+  have hrep : ∀ (a : List (Str × Str)) (b : List Str), a.length = b.length →
+      (a.flatMap fun _ => errI) = (b.flatMap fun _ => errI) := by
+    intro a
+    induction a with
+    | nil => intro b h; cases b <;> simp_all
+    | cons x a ih => intro b h; cases b with
+      | nil => simp at h
+      | cons y b => simp at h; simp [ih b h]
+  unfold V2.isContainedIn
+  simp only [forRange, Int.natCast_zero] at hl ⊢
+  simp only [hl, Option.bind_eq_bind, Option.bind_some, pure, mapLen, mapEntries, forRangeFrom_fold _ _ hb, hf]
+  cases l' with
+  | nil =>
+    have : containedSomewhere subjects = [] := by
+      have : (containedSomewhere subjects).length = 0 := by simpa using hlen.symm
+      exact List.length_eq_zero_iff.mp this
+    simp [this]
+  | cons p r =>
+    simp only [List.length_cons] at hlen
+    have hne : ¬ ((r.length : Int) + 1 = 0) := by omega
+    simp [hne, hrep (p :: r) (containedSomewhere subjects) (by simpa using hlen)]
+
+/-- subjects of the non-null service (resp. non-service) exports, in list order -/
+def svcSubjectsOf (es : List Jwt.Val) : List Str :=
+  ((es.filterMap Jwt.Val.deref).filter (isService ·)).map fun e => (e.field "subject").asStr
+def strSubjectsOf (es : List Jwt.Val) : List Str :=
+  ((es.filterMap Jwt.Val.deref).filter (fun e => !isService e)).map fun e => (e.field "subject").asStr
+
+theorem v2_exports_loop (env : VEnv) (opq : V2.Opq)
+    (hInfo : ∀ (e : Jwt.Val) (vr : V2.T_ValidationResults),
+      opq.Info_Validate (V2.T_Info.ofVal e) vr = some (push vr (validateInfo env e))) :
+    ∀ (es : List Jwt.Val) (i : Int) (vr : V2.T_ValidationResults) (svc strm : List Str),
+    forRangeFrom (V2.Exports_Validate.loop1 opq) i (es.map (optOfVal V2.T_Export.ofVal)) (vr, svc, strm) =
+      some (.done (push vr (es.flatMap (validateExport env)), svc ++ svcSubjectsOf es, strm ++ strSubjectsOf es)) := by
+  intro es
+  induction es with
+  | nil => intro i vr svc strm; simp [forRangeFrom, svcSubjectsOf, strSubjectsOf]
+  | cons ev es ih =>
+    intro i vr svc strm
+    cases hd : ev.deref with
+    | none =>
+      have hn : optOfVal V2.T_Export.ofVal ev = none := by
+        cases ev <;> simp [Jwt.Val.deref, optOfVal] at hd ⊢
+      have hv : validateExport env ev = errI := by simp [validateExport, hd]
+      simp [forRangeFrom, V2.Exports_Validate.loop1, hn, v2_addError, ih, hv, push_push, svcSubjectsOf, strSubjectsOf, hd]
+    | some e =>
+      have hs : optOfVal V2.T_Export.ofVal ev = some (V2.T_Export.ofVal e) := by
+        cases ev <;> simp [Jwt.Val.deref, optOfVal] at hd ⊢
+        exact congrArg _ hd
+      have hx := v2_exportValidate env opq hInfo ev
+      rw [hs] at hx
+      have hsub : (V2.T_Export.ofVal e).f_Subject = (e.field "subject").asStr := rfl
+      by_cases hsvc : isService e = true
+      · have h2 : (V2.T_Export.ofVal e).f_Type = 2 := by simpa [isService, V2.T_Export.ofVal] using hsvc
+        simp [forRangeFrom, V2.Exports_Validate.loop1, hs, V2.Export_IsService, h2, hx, ih, push_push,
+          svcSubjectsOf, strSubjectsOf, hd, hsvc, hsub]
+      · have hsvc' : isService e = false := by simpa using hsvc
+        have h2 : ¬ (V2.T_Export.ofVal e).f_Type = 2 := by simpa [isService, V2.T_Export.ofVal] using hsvc'
+        simp [forRangeFrom, V2.Exports_Validate.loop1, hs, V2.Export_IsService, h2, hx, ih, push_push,
+          svcSubjectsOf, strSubjectsOf, hd, hsvc', hsub]
+
+/-- `Exports.Validate` = the model's `validateExports` (rows E0–E13 per entry, EL1 over the list), and no error value -/
+theorem v2_exportsValidate (env : VEnv) (opq : V2.Opq)
+    (hInfo : ∀ (e : Jwt.Val) (vr : V2.T_ValidationResults),
+      opq.Info_Validate (V2.T_Info.ofVal e) vr = some (push vr (validateInfo env e)))
+    (es : List Jwt.Val) (vr : V2.T_ValidationResults) :
+    V2.Exports_Validate (es.map (optOfVal V2.T_Export.ofVal)) vr opq =
+      some (push vr (validateExports env (Jwt.Val.list es)), false) := by
+  unfold V2.Exports_Validate validateExports
+  simp [forRange, v2_exports_loop env opq hInfo, v2_isContainedInList, push_push, Jwt.Val.asList,
+    svcSubjectsOf, strSubjectsOf]
+
 end Jwt.FnTie
